@@ -554,4 +554,243 @@ theorem partitionGen_none (x : AStr) (sep : Str) (r : Bool)
   unfold AStr.partitionGen
   rw [h]
 
+/-! ## `set_ansi_str` of a string without ESC -/
+
+theorem tokLoop_noesc (ae : Bool) (acc : Option Str) (s : Str) (o : Parsed) (h : '\x1b' ∉ s) :
+    tokLoop ae acc .text s o = { o with text := o.text ++ s } := by
+  induction s generalizing o with
+  | nil => simp [tokLoop]
+  | cons c rest ih =>
+    have hc : c ≠ '\x1b' := fun e => h (by simp [e])
+    have hr : '\x1b' ∉ rest := fun e => h (by simp [e])
+    rw [tokLoop]
+    · rw [ih _ hr]; simp [Parsed.push]
+    · intro rest' e
+      exact absurd e hc
+
+/-- the tokenizer leaves a string without ESC unchanged and records nothing -/
+theorem tokenize_noesc (ae : Bool) (acc : Option Str) (s : Str) (h : '\x1b' ∉ s) :
+    tokenize s ae acc = { text := s, seqs := [] } := by
+  unfold tokenize
+  rw [tokLoop_noesc ae acc s {} h]
+  rfl
+
+theorem setAnsiStep_s (a : AStr × PyDict × Nat) (key : Nat) (seq : CtlSeq) :
+    (AStr.setAnsiStep a key seq).1.s = a.1.s := by
+  obtain ⟨x, old, nid⟩ := a
+  unfold AStr.setAnsiStep
+  simp only
+  split
+  · rfl
+  · simp only
+    split <;> split <;> simp [applyFormatting_s, removeFormatting_s]
+
+/-- `set_ansi_str(s)`: the text is the tokenizer's unformatted text -/
+theorem setAnsi_s (raw : Str) (nid : Nat) :
+    (AStr.setAnsi raw nid).1.s = (tokenize raw false (some Gen.sgrTerminator)).text := by
+  unfold AStr.setAnsi
+  simp only
+  have inner : ∀ (k : Nat) (l : List CtlSeq) (a : AStr × PyDict × Nat),
+      (l.foldl (fun acc sq => AStr.setAnsiStep acc k sq) a).1.s = a.1.s := by
+    intro k l
+    induction l with
+    | nil => intro a; rfl
+    | cons c l ih => intro a; rw [List.foldl_cons, ih, setAnsiStep_s]
+  have outer : ∀ (l : List (Nat × List CtlSeq)) (a : AStr × PyDict × Nat),
+      (l.foldl (fun acc kv => kv.2.foldl (fun acc sq => AStr.setAnsiStep acc kv.1 sq) acc) a).1.s
+        = a.1.s := by
+    intro l
+    induction l with
+    | nil => intro a; rfl
+    | cons c l ih => intro a; rw [List.foldl_cons, ih, inner]
+  rw [outer]
+
+theorem setAnsi_plain (raw : Str) (nid : Nat) (h : '\x1b' ∉ raw) : (AStr.setAnsi raw nid).1.s = raw := by
+  rw [setAnsi_s, tokenize_noesc _ _ _ h]
+
+/-! ## the `replace` loop -/
+
+/-- the value inserted for one match and the next fresh id (the `let (rep, nid')` of the model) -/
+def repOf (new : AStr.Repl) (obj : AStr) (i nid : Nat) : AStr × Nat :=
+  match new with
+  | .astr v => (v, nid)
+  | .str raw =>
+    let r := AStr.setAnsi raw nid
+    let act := obj.ansiSettingsAt i
+    ((r.1.applyFormatting (freshSettings r.2 (texts act)) none none true), r.2 + act.length)
+
+theorem replaceLoop_succ (old : Str) (new : AStr.Repl) (fuel : Nat) (obj : AStr) (count : Int)
+    (i nid : Nat) :
+    AStr.replaceLoop old new (fuel + 1) obj count (some i) nid =
+      if count = 0 then obj
+      else
+        let obj' := ((obj.getSlice none (some i)).iadd (repOf new obj i nid).1).iadd
+          (obj.getSlice (some ((i + old.length : Nat) : Int)) none)
+        AStr.replaceLoop old new fuel obj' (if count > 0 then count - 1 else count)
+          (Py.find obj'.s old (i + new.advance + (if old.isEmpty then 1 else 0)))
+          (repOf new obj i nid).2 := by
+  cases new <;> rfl
+
+theorem replaceLoop_none (old : Str) (new : AStr.Repl) (fuel : Nat) (obj : AStr) (count : Int)
+    (nid : Nat) : AStr.replaceLoop old new fuel obj count none nid = obj := by
+  cases fuel <;> rfl
+
+/-- the text `replace` inserts -/
+def replText : AStr.Repl → Str
+  | .str raw => raw
+  | .astr v => v.s
+
+/-- a plain-`str` replacement must not contain ESC (it is parsed by `set_ansi_str`) -/
+def ReplOk : AStr.Repl → Prop
+  | .str raw => '\x1b' ∉ raw
+  | .astr _ => True
+
+theorem repOf_s (new : AStr.Repl) (h : ReplOk new) (obj : AStr) (i nid : Nat) :
+    (repOf new obj i nid).1.s = replText new := by
+  cases new with
+  | astr v => rfl
+  | str raw =>
+    simp only [repOf, replText]
+    rw [applyFormatting_s, setAnsi_plain raw nid h]
+
+theorem advance_eq (new : AStr.Repl) : new.advance = (replText new).length := by
+  cases new <;> rfl
+
+/-- text of one loop step: `obj[:i] + rep + obj[i+len(old):]` -/
+theorem step_s (old : Str) (new : AStr.Repl) (h : ReplOk new) (obj : AStr) (i nid : Nat) :
+    (((obj.getSlice none (some i)).iadd (repOf new obj i nid).1).iadd
+      (obj.getSlice (some ((i + old.length : Nat) : Int)) none)).s =
+      obj.s.take i ++ replText new ++ obj.s.drop (i + old.length) := by
+  rw [iadd_s, iadd_s, getSlice_to_s, getSlice_from_s, repOf_s new h]
+
+/-- The loop of `replace` for a non-empty `old`, against ANY function `R` that satisfies the
+    three "first occurrence" equations; `fuel > len(rest)` suffices. -/
+theorem replaceLoop_s (old : Str) (hold : old ≠ []) (new : AStr.Repl) (hnew : ReplOk new)
+    (R : Str → Int → Str)
+    (E1 : ∀ s c, (∀ j, j ≤ s.length → old.isPrefixOf (s.drop j) = false) → R s c = s)
+    (E2 : ∀ s, R s 0 = s)
+    (E3 : ∀ pre post c, c ≠ 0 →
+        (∀ j, j < pre.length → old.isPrefixOf ((pre ++ old ++ post).drop j) = false) →
+        R (pre ++ old ++ post) c = pre ++ replText new ++ R post (if c > 0 then c - 1 else c))
+    (fuel : Nat) : ∀ (obj : AStr) (count : Int) (nid : Nat) (done rest : Str),
+      obj.s = done ++ rest → rest.length + 1 ≤ fuel →
+      (AStr.replaceLoop old new fuel obj count
+        ((Py.find rest old 0).map (· + done.length)) nid).s = done ++ R rest count := by
+  induction fuel with
+  | zero => intro obj count nid done rest _ h; omega
+  | succ fuel ih =>
+    intro obj count nid done rest hobj hfuel
+    cases hf : Py.find rest old 0 with
+    | none =>
+      rw [Option.map_none, replaceLoop_none, hobj,
+        E1 rest count (fun j hj => (find_none_iff _ _ _).mp hf j hj (Nat.zero_le _))]
+    | some k =>
+      obtain ⟨hk, -, hocc, hfirst⟩ := (find_some_iff _ _ _ _).mp hf
+      rw [Option.map_some, replaceLoop_succ]
+      by_cases hc : count = 0
+      · rw [if_pos hc, hobj, hc, E2]
+      · rw [if_neg hc]
+        simp only
+        have hdec := occ_decomp rest old k hocc
+        generalize hpre : rest.take k = pre at hdec
+        generalize hpost : rest.drop (k + old.length) = post at hdec
+        have hprelen : pre.length = k := by rw [← hpre, List.length_take]; omega
+        have hstep := step_s old new hnew obj (k + done.length) nid
+        have htake : obj.s.take (k + done.length) = done ++ pre := by
+          rw [hobj, hdec]
+          have : done ++ (pre ++ old ++ post) = (done ++ pre) ++ (old ++ post) := by simp
+          rw [this]
+          exact List.take_left' (by simp; omega)
+        have hdrop : obj.s.drop (k + done.length + old.length) = post := by
+          rw [hobj, hdec, ← hprelen]
+          have : pre.length + done.length + old.length = (done ++ pre ++ old).length := by
+            simp; omega
+          rw [this]
+          have : done ++ (pre ++ old ++ post) = (done ++ pre ++ old) ++ post := by simp
+          rw [this, List.drop_left]
+        rw [htake, hdrop] at hstep
+        have hold0 : (if old.isEmpty = true then 1 else 0) = 0 := by
+          cases old with
+          | nil => exact absurd rfl hold
+          | cons _ _ => rfl
+        have hfrom : k + done.length + new.advance + (if old.isEmpty = true then 1 else 0) =
+            (done ++ pre ++ replText new).length + 0 := by
+          rw [hold0, advance_eq]; simp; omega
+        generalize hobj' : ((obj.getSlice none (some ((k + done.length : Nat) : Int))).iadd
+          (repOf new obj (k + done.length) nid).1).iadd
+            (obj.getSlice (some ((k + done.length + old.length : Nat) : Int)) none) = obj' at hstep ⊢
+        rw [hfrom, hstep, find_append_skip]
+        have hlen : post.length + 1 ≤ fuel := by
+          have := congrArg List.length hdec
+          simp at this
+          have : 0 < old.length := List.length_pos_iff.mpr hold
+          omega
+        rw [ih obj' _ _ (done ++ pre ++ replText new) post hstep hlen, hdec,
+          E3 pre post count hc (by rw [← hdec, hprelen]; exact fun j hj => hfirst j hj (Nat.zero_le _))]
+        simp
+
+/-- `replace(old, new, count)` for a non-empty `old`; the fuel `len + 2` of the model suffices -/
+theorem replace_s (x : AStr) (old : Str) (hold : old ≠ []) (new : AStr.Repl) (hnew : ReplOk new)
+    (R : Str → Int → Str)
+    (E1 : ∀ s c, (∀ j, j ≤ s.length → old.isPrefixOf (s.drop j) = false) → R s c = s)
+    (E2 : ∀ s, R s 0 = s)
+    (E3 : ∀ pre post c, c ≠ 0 →
+        (∀ j, j < pre.length → old.isPrefixOf ((pre ++ old ++ post).drop j) = false) →
+        R (pre ++ old ++ post) c = pre ++ replText new ++ R post (if c > 0 then c - 1 else c))
+    (count : Int) (nid : Nat) : (x.replace old new count nid).s = R x.s count := by
+  have := replaceLoop_s old hold new hnew R E1 E2 E3 (x.len + 2) x count nid [] x.s rfl
+    (by simp [AStr.len])
+  simpa [AStr.replace] using this
+
+/-- The loop of `replace` for the empty `old`, against any `R` satisfying the insertion equations -/
+theorem replaceLoop_empty_s (new : AStr.Repl) (hnew : ReplOk new) (R : Str → Int → Str)
+    (Z0 : ∀ s, R s 0 = s)
+    (Z1 : ∀ c, c ≠ 0 → R [] c = replText new)
+    (Z2 : ∀ a s c, c ≠ 0 → R (a :: s) c = replText new ++ a :: R s (if c > 0 then c - 1 else c))
+    (fuel : Nat) : ∀ (obj : AStr) (count : Int) (nid : Nat) (done rest : Str),
+      obj.s = done ++ rest → rest.length + 1 ≤ fuel →
+      (AStr.replaceLoop [] new fuel obj count (some done.length) nid).s = done ++ R rest count := by
+  induction fuel with
+  | zero => intro obj count nid done rest _ h; omega
+  | succ fuel ih =>
+    intro obj count nid done rest hobj hfuel
+    rw [replaceLoop_succ]
+    by_cases hc : count = 0
+    · rw [if_pos hc, hobj, hc, Z0]
+    · rw [if_neg hc]
+      simp only
+      have hstep := step_s [] new hnew obj done.length nid
+      have htake : obj.s.take done.length = done := by rw [hobj]; exact List.take_left' rfl
+      have hdrop : obj.s.drop (done.length + ([] : Str).length) = rest := by
+        rw [hobj]; exact List.drop_left' rfl
+      rw [htake, hdrop] at hstep
+      generalize ((obj.getSlice none (some ((done.length : Nat) : Int))).iadd
+          (repOf new obj done.length nid).1).iadd
+            (obj.getSlice (some ((done.length + ([] : Str).length : Nat) : Int)) none) = obj' at hstep ⊢
+      cases rest with
+      | nil =>
+        have hfind : Py.find obj'.s [] (done.length + new.advance +
+            (if ([] : Str).isEmpty = true then 1 else 0)) = none := by
+          rw [find_empty, hstep, advance_eq]; simp
+        rw [hfind, replaceLoop_none, hstep, Z1 _ hc, List.append_nil]
+      | cons a r =>
+        have hfind : Py.find obj'.s [] (done.length + new.advance +
+            (if ([] : Str).isEmpty = true then 1 else 0)) =
+            some (done ++ replText new ++ [a]).length := by
+          rw [find_empty, hstep, advance_eq]; simp; omega
+        rw [hfind, ih obj' _ _ (done ++ replText new ++ [a]) r (by rw [hstep]; simp)
+          (by simp at hfuel; omega), Z2 a r count hc]
+        simp
+
+theorem replace_empty_s (x : AStr) (new : AStr.Repl) (hnew : ReplOk new) (R : Str → Int → Str)
+    (Z0 : ∀ s, R s 0 = s)
+    (Z1 : ∀ c, c ≠ 0 → R [] c = replText new)
+    (Z2 : ∀ a s c, c ≠ 0 → R (a :: s) c = replText new ++ a :: R s (if c > 0 then c - 1 else c))
+    (count : Int) (nid : Nat) : (x.replace [] new count nid).s = R x.s count := by
+  have := replaceLoop_empty_s new hnew R Z0 Z1 Z2 (x.len + 2) x count nid [] x.s rfl
+    (by simp [AStr.len])
+  unfold AStr.replace
+  rw [find_empty, if_pos (Nat.zero_le _)]
+  simpa using this
+
 end SL
